@@ -59,8 +59,8 @@ def extract_block(repo, rel, sel, frm, to, skip=0):
     i_to = [i for i, ln in enumerate(lines) if rs.norm_ws(to) in rs.norm_ws(ln)]
     if len(i_from) != 1 or len(i_to) != 1 or i_to[0] <= i_from[0]:
         raise RuntimeError("lost anchor: block of `%s` between `%s` and `%s`" % (sel, frm, to))
-    if skip and any(rs.norm_ws(ln) not in ("}", "") for ln in lines[i_from[0] + 1:i_from[0] + 1 + skip]):
-        raise RuntimeError("lost anchor: block of `%s`: skipped lines are not closing braces" % sel)
+    if skip and any(rs.norm_ws(ln) not in ("}", "", ");") for ln in lines[i_from[0] + 1:i_from[0] + 1 + skip]):
+        raise RuntimeError("lost anchor: block of `%s`: skipped lines are not closing braces / parentheses" % sel)
     text = "\n".join(lines[i_from[0] + 1 + skip:i_to[0]])
     return text, txt.count("\n", 0, host.body_open) + i_from[0] + 2 + skip
 
@@ -205,7 +205,12 @@ def run_kani_unit(name, workdir, tier, prop):
                 text = re.sub(r"#\[(?:derive|serde)\((?:[^()]|\([^()]*\))*\)\]\s*", "", text)
             with open(os.path.join(dst, e["out"]), "a" if e.get("append") else "w") as f:
                 f.write(e.get("prefix", "") + text + e.get("suffix", "") + "\n")
-            out["extracted"].append(dict(file=e["file"], item=e.get("sel") or e.get("macro_body"), line=line))
+            item = e.get("sel") or e.get("macro_body") or e.get("invocation")
+            if e.get("block"):
+                item = "%s [statements after `%s` up to `%s`]" % (e.get("sel"), e["block"]["from"], e["block"]["to"])
+            if e.get("within"):
+                item = "%s :: %s" % (e["within"], item)
+            out["extracted"].append(dict(file=e["file"], item=item, line=line))
     except RuntimeError as ex:
         out["undecided"] = str(ex)
         return out
